@@ -214,7 +214,7 @@ MINE = {
  "C20-j": ("caught as built", ""),
 
  # ---- round k (definition shape C01-C05, fault / unusual peer C06-C10, value or sequence C11-C15, two cooperating sites C16-C20)
- "C01-k": ("missed (needs google.protobuf.Value fields; the schema IR knows Timestamp and Duration only)", ""),
+ "C01-k": ("missed", "unit deliver/wkt-value: google.protobuf.Value and Struct fields in requests and responses; value classes unset, one per kind, an explicit null, a struct with a null member"),
  "C02-k": ("missed", "placement group fnames: URL-bound fields whose proto names are not lower snake_case (itemId, shelfNo, ID, userID, x1, a_B)"),
  "C03-k": ("caught as built", ""),
  "C04-k": ("missed (the coarse pattern for flattened oneofs absorbed it)", "features oneof_{nested,flatten}/message/fieldless-variants"),
